@@ -61,10 +61,8 @@ TAINTED_ATTRS = {'metavars'}
 
 # iterables the local rules cannot type, reviewed by hand (file, source text) -> why it is ordered
 REVIEWED_ORDERED = {
-    ('counting_interpreter.py', 'pattern_stats.used_patterns'):
-        'field of the Stats namedtuple: a dict created as {} in _collect_patterns and filled from the children list and '
-        'the children\'s own used_patterns dicts (insertion ordered)',
-    ('counting_interpreter.py', 'child_stats.used_patterns.items()'): 'same dict',
+    # (file, canonical text of the iterable) -> reason.  Empty: the used_patterns dicts of counting_interpreter.py are now typed
+    # from the keyword arguments they are constructed with (Stats(..., used_patterns={})).
 }
 
 
@@ -139,6 +137,17 @@ def gather(pkg_root, only=None):
                         env.add_attr(t.id, ann_kind(node.annotation), node.annotation)
                 elif isinstance(node, (ast.FunctionDef, ast.AsyncFunctionDef)):
                     env.add_meth(node.name, ann_kind(node.returns))
+                elif isinstance(node, ast.Call) and node.keywords:
+                    # Stats(uses=1, ..., used_patterns={}) / x._replace(field=...): the field holds what it is built with
+                    for kw in node.keywords:
+                        if kw.arg is None:
+                            continue
+                        v = kw.value
+                        if isinstance(v, (ast.Dict, ast.List, ast.Tuple, ast.ListComp)):
+                            env.add_attr(kw.arg, 'ordered')
+                        elif isinstance(v, (ast.Set, ast.SetComp)) or (isinstance(v, ast.Call) and isinstance(v.func, ast.Name)
+                                                                       and v.func.id in SET_CALLS):
+                            env.add_attr(kw.arg, 'set')
     return env
 
 
@@ -149,6 +158,7 @@ class Scanner(ast.NodeVisitor):
         self.file = relfile
         self.src = src
         self.func = ['<module>']
+        self.fnodes = []
         self.locals = [{}]
         self.sites = []        # dict(file, func, kind, expr, line, cls)
         self.nondet = []
@@ -244,19 +254,80 @@ class Scanner(ast.NodeVisitor):
     def text(self, node):
         return ' '.join(ast.unparse(node).split())
 
-    def add(self, kind, node, cls):
-        self.sites.append(dict(file=self.file, func='.'.join(self.func[1:]) or '<module>', kind=kind,
-                               expr=self.text(node), line=getattr(node, 'lineno', 0), cls=cls))
+    # ---- identity of a site: robust to renaming locals and to moving code into another method of the same class ------
+    def local_names(self):
+        if not self.fnodes:
+            return set()
+        fn = self.fnodes[-1]
+        a = fn.args
+        names = {x.arg for x in a.posonlyargs + a.args + a.kwonlyargs + ([a.vararg] if a.vararg else []) + ([a.kwarg] if a.kwarg else [])}
+        for n in ast.walk(fn):
+            if isinstance(n, ast.Name) and isinstance(n.ctx, ast.Store):
+                names.add(n.id)
+        return names - {'self', 'cls'}
 
-    def classify_iter(self, kind, it):
+    def canon(self, node, locs=None):
+        """source text with every local variable of the enclosing function replaced by `_`"""
+        locs = self.local_names() if locs is None else locs
+
+        class R(ast.NodeTransformer):
+            def visit_Name(self, n):
+                return ast.copy_location(ast.Name(id='_', ctx=n.ctx), n) if n.id in locs else n
+        import copy
+        return ' '.join(ast.unparse(R().visit(copy.deepcopy(node))).split())
+
+    def canon_iterable(self, node):
+        """what is iterated: a local name is replaced by the (canonical) expression it is bound to, when it is bound once"""
+        locs = self.local_names()
+        if isinstance(node, ast.Name) and node.id in locs and self.fnodes:
+            fn = self.fnodes[-1]
+            binds = [n for n in ast.walk(fn) if isinstance(n, (ast.Assign, ast.AnnAssign)) and n.value is not None
+                     and any(isinstance(t, ast.Name) and t.id == node.id for t in (n.targets if isinstance(n, ast.Assign) else [n.target]))]
+            fills = sorted({n.func.attr for n in ast.walk(fn) if isinstance(n, ast.Call) and isinstance(n.func, ast.Attribute)
+                            and isinstance(n.func.value, ast.Name) and n.func.value.id == node.id
+                            and n.func.attr in ('add', 'update', 'append', 'extend', 'discard', 'remove')})
+            if len(binds) == 1:
+                return self.canon(binds[0].value, locs) + (' filled by ' + '/'.join(fills) if fills else '')
+            params = {x.arg for x in fn.args.args + fn.args.kwonlyargs}
+            if node.id in params:
+                ann = next((x.annotation for x in fn.args.args + fn.args.kwonlyargs if x.arg == node.id), None)
+                return '<parameter: ' + (ast.unparse(ann) if ann is not None else '?') + '>'
+            return f'<local bound {len(binds)} times>'
+        return self.canon(node, locs)
+
+    def uses(self, nodes):
+        """how the elements are consumed: attribute names and (non-local) functions mentioned in the loop body"""
+        locs = self.local_names()
+        out = set()
+        for b in nodes:
+            for n in ast.walk(b):
+                if isinstance(n, ast.Attribute):
+                    out.add(n.attr)
+                elif isinstance(n, ast.Call) and isinstance(n.func, ast.Name) and n.func.id not in locs:
+                    out.add(n.func.id + '()')
+        return ','.join(sorted(out))
+
+    def where(self):
+        """the class (for anything inside a class) or the top-level function: a statement moved into a private helper of the
+        same class keeps its identity"""
+        return self.func[1] if len(self.func) > 1 else '<module>'
+
+    def add(self, kind, node, cls, body=None):
+        expr = self.canon_iterable(node)
+        if body is not None:
+            expr += ' | body uses: ' + self.uses(body)
+        self.sites.append(dict(file=self.file, func=self.where(), kind=kind, expr=expr, line=getattr(node, 'lineno', 0), cls=cls,
+                               method='.'.join(self.func[1:]) or '<module>', src=self.text(node)))
+
+    def classify_iter(self, kind, it, body=None):
         k = self.kind(it)
         if k == 'ordered':
             return
-        if (self.file, self.text(it)) in REVIEWED_ORDERED:
-            self.add(kind, it, 'reviewed')
+        if (self.file, self.canon_iterable(it)) in REVIEWED_ORDERED:
+            self.add(kind, it, 'reviewed', body)
             return
         cls = 'unordered' if k in ('set', 'fs', 'unordered-dict') else 'unknown'
-        self.add(kind + (':' + k if cls == 'unordered' else ''), it, cls)
+        self.add(kind + (':' + k if cls == 'unordered' else ''), it, cls, body)
 
     def bind(self, target, kind):
         if isinstance(target, ast.Name):
@@ -268,6 +339,7 @@ class Scanner(ast.NodeVisitor):
     # ---- visitors ---------------------------------------------------------------------------
     def visit_FunctionDef(self, node):
         self.func.append(node.name)
+        self.fnodes.append(node)
         scope = {}
         args = node.args
         for a in args.posonlyargs + args.args + args.kwonlyargs + ([args.vararg] if args.vararg else []) + ([args.kwarg] if args.kwarg else []):
@@ -296,6 +368,7 @@ class Scanner(ast.NodeVisitor):
         self.generic_visit(node)
         self.locals.pop()
         self.func.pop()
+        self.fnodes.pop()
 
     visit_AsyncFunctionDef = visit_FunctionDef
 
@@ -308,7 +381,7 @@ class Scanner(ast.NodeVisitor):
         self.generic_visit(node)
 
     def visit_For(self, node):
-        self.classify_iter('for', node.iter)
+        self.classify_iter('for', node.iter, list(node.body))
         # loop variable kinds: elements are unknown
         self.generic_visit(node)
 
@@ -316,7 +389,8 @@ class Scanner(ast.NodeVisitor):
         for g in node.generators:
             # a set built from a set is order-free unless the element expression has effects (calls are
             # reported by their own sites); still listed, as kind setcomp, so that it must be matched
-            self.classify_iter(kind, g.iter)
+            body = list(g.ifs) + ([node.key, node.value] if isinstance(node, ast.DictComp) else [node.elt])
+            self.classify_iter(kind, g.iter, body)
         self.generic_visit(node)
 
     def visit_ListComp(self, node):
@@ -463,14 +537,14 @@ REVIEWED_CACHES = {
 }
 # instance attributes assigned outside __init__ in the scanned files, reviewed: (file, class.method, attribute) -> why
 REVIEWED_INSTANCE_STATE = {
-    ('counting_interpreter.py', 'CountingInterpreter.finalize', '_max_allowed_slots'):
+    ('counting_interpreter.py', 'CountingInterpreter', '_max_allowed_slots'):
         'analysis object is created per serialize() call; finalize() asserts it runs once',
-    ('counting_interpreter.py', 'CountingInterpreter.finalize', '_finalized'): 'same (one-shot flag of a per-call object)',
-    ('metamath/converter/scope.py', 'Scope.import_from_scope', '_metavars'):
+    ('counting_interpreter.py', 'CountingInterpreter', '_finalized'): 'same (one-shot flag of a per-call object)',
+    ('metamath/converter/scope.py', 'Scope', '_metavars'):
         'initialiser-style copy: called on a Scope() created the line before; copies the parent scope\'s tables',
-    ('metamath/converter/scope.py', 'Scope.import_from_scope', '_element_vars'): 'same',
-    ('metamath/converter/scope.py', 'Scope.import_from_scope', '_set_vars'): 'same',
-    ('metamath/converter/scope.py', 'Scope.import_from_scope', '_notations'): 'same',
+    ('metamath/converter/scope.py', 'Scope', '_element_vars'): 'same',
+    ('metamath/converter/scope.py', 'Scope', '_set_vars'): 'same',
+    ('metamath/converter/scope.py', 'Scope', '_notations'): 'same',
 }
 
 
@@ -545,9 +619,9 @@ def state_scan(pkg):
                             if isinstance(sub, (ast.Assign, ast.AugAssign, ast.AnnAssign)):
                                 for t in (sub.targets if isinstance(sub, ast.Assign) else [sub.target]):
                                     if isinstance(t, ast.Attribute) and isinstance(t.value, ast.Name) and t.value.id == 'self':
-                                        rec = dict(file=rel, func=f'{cnode.name}.{m.name}', kind='instance-attribute-written-outside-init',
+                                        rec = dict(file=rel, func=cnode.name, kind='instance-attribute-written-outside-init',
                                                    expr='self.' + t.attr, line=sub.lineno)
-                                        (reviewed if (rel, f'{cnode.name}.{m.name}', t.attr) in REVIEWED_INSTANCE_STATE else sites).append(rec)
+                                        (reviewed if (rel, cnode.name, t.attr) in REVIEWED_INSTANCE_STATE else sites).append(rec)
     return sites, reviewed
 
 
